@@ -18,7 +18,7 @@ add("C03", "exploration",
     "trusted: reference decoder refmodel::ref_fixed and the IANA keyword table mc/src/iana.rs; byte values beyond the walking-byte/boundary alphabets are not covered",
     "bounded-exhaustive input enumeration vs reference decoder (explicit-state, stateless)", "DESIGN.md §5 C03", "E-ENUM")
 add("C06", "model_checking",
-    "Explicit-state model checking of the real template caches: stateright BFS to the FIXPOINT of the reachable graph whose states are (canonical content of the real caches of every parser instance, reference latest-wins cache) and whose transitions apply one action of a 36-action-per-instance alphabet (T/OT/D/TD/DT/[T++D] for V9 and IPFIX over two or three ids and two or three layouts, V5, V7, garbage, unknown version, truncated and incomplete templates, mixed buffer) with the real parse_bytes, on two instances with different allowed sets. Every transition checks: decode = reference under the latest definition; caches = reference prediction (so inert input changes nothing); no eviction; instance and protocol isolation; buffer = one-packet-per-call delivery; and soundness of state merging (parser rebuilt from the snapshot vs parser that replayed the full history).",
+    "Explicit-state model checking of the real template caches: stateright BFS to the FIXPOINT of the reachable graph whose states are (canonical content of the real caches of every parser instance, reference latest-wins cache) and whose transitions apply one action of a 36-action-per-instance alphabet (T/OT/D/TD/DT/[T++D] for V9 and IPFIX over two or three ids and two or three layouts, V5, V7, garbage, unknown version, truncated and incomplete templates, mixed buffer) with the real parse_bytes, on two instances with different allowed sets. Every transition checks: decode = reference under the latest definition; caches = reference prediction (so inert input changes nothing); no eviction; instance and protocol isolation; buffer = one-packet-per-call delivery; and soundness of state merging (parser rebuilt from the snapshot vs parsers that replayed the full interleaved history). Complemented by (a) a bounded exploration WITHOUT state merging - every history of <=3 (thorough 4) calls over the single-id two-instance alphabet, last call judged against the reference - which sees state kept outside the caches, and (b) an explicit never-evicted-at-scale enumeration (up to 65 279 distinct ids).",
     "closed under the stated alphabet only; trusted: refmodel.rs, explore.rs, stateright's fingerprint deduplication",
     "explicit-state model checking of the implementation (stateright BFS to fixpoint) against a reference model", "DESIGN.md §5 C06", "E-HIST")
 add("C07", "model_checking",
@@ -52,11 +52,11 @@ add("C11", "model_checking",
     "sequences whose one-per-call run contains an error element are outside the property's domain (counted, not judged); trusted: c11::judge",
     "bounded-exhaustive enumeration of sequences x all partitions (stateless exploration of real code, differential oracle)", "DESIGN.md §5 C11", "E-ENUM")
 add("C12", "model_checking",
-    "All 48 allowed-version sets (16 subsets of {5,7,9,10} x extras) x every buffer of 1..=3 (thorough 4) packets over a 16-packet menu x 4 prior cache states, each compared with a parser that allows all 65 536 versions started from the same state: result = maximal leading part with allowed versions; caches = those of the all-allowing parser fed only that part; unknown allowed versions are UnknownVersion errors.",
+    "All 64 allowed-version sets (16 subsets of {5,7,9,10} x extras {none, {6}, {0,11,65535}, 24 numbers aliasing 5/7/9/10 under mod-2^k masks and byte swap}) x every buffer of 1..=3 (thorough 4) packets over a 16-packet menu x 4 prior cache states, each compared with a parser that allows all 65 536 versions started from the same state: result = maximal leading part with allowed versions; caches = those of the all-allowing parser fed only that part; unknown allowed versions are UnknownVersion errors.",
     "trusted: c12::judge",
     "bounded-exhaustive enumeration of configurations x buffers x states (differential oracle)", "DESIGN.md §5 C12", "E-ENUM")
 add("C13", "model_checking",
-    "Parser and conversion are run together over: V5/V7 walking-byte and all materialised counts; V9 and IPFIX templates made of EVERY subset of the projected fields (2048 subsets: source/destination address each absent/IPv4/IPv6/both, ports, protocol, first, last, MACs) in three field orders, 1..=3 records, 1..=2 data sets; and the flattening helper over all chains of <=3 (thorough 4) packets x 4 prior cache states. The expected view is the projection of the independent reference decode (one flow per record, member = decoded field, None iff the template lacks it).",
+    "Parser and conversion are run together over: V5/V7 walking-byte and all materialised counts; V9 and IPFIX templates made of EVERY subset of the projected fields (2048 subsets: source/destination address each absent/IPv4/IPv6/both, ports, protocol, first, last, MACs) in three field orders, 1..=3 records, 1..=2 data sets; the full template together with every subset template in one packet; all-zero/all-ones values of every projected field; and the flattening helper over all chains of <=3 (thorough 4) packets x 4 prior cache states. The expected view is the projection of the independent reference decode (one flow per record, member = decoded field, None iff the template lacks it).",
     "trusted: refmodel.rs and c13::project; IPv4 is projected when both address families are present",
     "bounded-exhaustive enumeration of template subsets vs projection of the reference model", "DESIGN.md §5 C13", "E-ENUM")
 add("C14", "fault_enumeration",
@@ -69,7 +69,7 @@ add("C15", "model_checking",
     "the constants of the laws are chosen with head-room over the measured benign maxima (reported in the evidence); coverage is the ladder and the grammar product, not all buffers; trusted: alloc.rs, sweep.rs",
     "bounded-exhaustive execution sweep with allocation accounting (stateless exploration of real code)", "DESIGN.md §5 C15", "E-SWEEP")
 add("C16", "model_checking",
-    "Every parse result of C04's and C05's conformant stream spaces (every field type x width x value menu incl. 128-bit extremes, NaN/inf/-0.0, invalid UTF-8, empty values), V5/V7 walking byte, and the byte-deviation / truncation / tiny-buffer families (error elements with arbitrary remaining bytes) is serialised with serde_json::to_writer: must succeed, parse with the harness' own order-preserving reader, be byte-identical when repeated and across two parser instances fed the same history, and equal the tree built by hand from the decoded structure (exact number tokens, floats by bit pattern, record keys in ascending field index).",
+    "Every parse result of C04's and C05's conformant stream spaces (every field type x width x value menu incl. 128-bit extremes, NaN/inf/-0.0, invalid UTF-8, empty values), V5/V7 walking byte, and the byte-deviation / truncation / tiny-buffer families (error elements with arbitrary remaining bytes), plus streams that define up to 4097 (thorough 9000) template ids and then send data for every id, is serialised with serde_json::to_writer: must succeed, parse with the harness' own order-preserving reader, be byte-identical when repeated and across two parser instances fed the same history, and equal the tree built by hand from the decoded structure (exact number tokens, floats by bit pattern, record keys in ascending field index).",
     "trusted: json.rs and c16::expected (serde derive conventions of the public types, pinned by the repository's YAML snapshots)",
     "bounded-exhaustive enumeration of results with an independent reader and hand-built expected tree", "DESIGN.md §5 C16", "E-ENUM")
 add("C17", "model_checking",
